@@ -200,7 +200,7 @@ def who_rules(P, R):
 # ------------------------------------------------------------------------------------------ dump
 
 def dump_rules(P, R):
-    R.rule("C09.dump", "dump file and dump string come from the same generator and request", minimum=2)
+    R.rule("C09.dump", "dump file and dump string come from the same generator and request", minimum=3)
     de = P.one("Phreeqc::dump_entities")
     dr = P.one("IPhreeqc::do_run")
     gen_file = [c for c in T.calls(de["body"]) if T.callee_q(c) == "Phreeqc::dump_ostream"]
@@ -224,6 +224,23 @@ def dump_rules(P, R):
         R.ok("C09.dump", "string-switch", "dump string branch at line %d" % cond[1])
     else:
         R.violation("C09.dump", "string-switch", "the dump-string branch of do_run is not guarded", file=dr["file"], line=gen_str[0][1], function=dr["q"])
+    # both sinks obey the engine-side print switch pr.dump (PRINT -dump): the file through dump_entities' early return, the
+    # string through the condition chain that encloses its call of dump_ostream
+    def mentions_pr_dump(n):
+        for y in T.walk(n):
+            if y[0] == "Member" and y[2].split("::")[-1] == "dump" and T.is_node(y[3]) and any(z[0] == "Member" and z[2] == "Phreeqc::pr" for z in T.walk(y[3])):
+                return True
+        return False
+    file_ok = any(x[0] == "If" and mentions_pr_dump(x[2]) and any(z[0] == "Return" for z in T.walk(x[3])) for x in T.walk(de["body"]))
+    str_ok = False
+    for x in T.walk(dr["body"]):
+        if x[0] == "If" and any(c is gen_str[0] for c in T.calls(x[3])) and mentions_pr_dump(x[2]):
+            str_ok = True
+    if file_ok and str_ok:
+        R.ok("C09.dump", "print-switch", "dump file and dump string are both disabled by PRINT -dump false (pr.dump)")
+    else:
+        R.violation("C09.dump", "print-switch", "the engine switch pr.dump (PRINT -dump) governs the dump file: %s, the dump string: %s - one view is written while the other is not"
+                    % (file_ok, str_ok), file=dr["file"], line=gen_str[0][1], function=dr["q"])
 
 
 # ------------------------------------------------------------------------------------------ rebuild of line vectors
